@@ -168,7 +168,10 @@ def source(shape, variant, uid):
     star = f", *rest: {q}{names[f['star']]}{q}" if f["star"] is not None else ""
     fn_lines = [f"{ind}@parse", f"{ind}def fn(x: {q}{names[f['arg']]}{q}{star}) -> {q}{names[f['ret']]}{q}:",
                 (f"{ind}    return dict(v='7', peer=dict(m=1))" if shape["classes"][f["ret"]].get("peer") else f"{ind}    return dict(v='7')")
-                if f["ret"] != f["arg"] else f"{ind}    return x", ""]
+                if f["ret"] != f["arg"] else f"{ind}    return x", "",
+                # a function whose parameters are NOT parsed: only its return annotation (a late reference) is used
+                f"{ind}@parse(ignore_params=True)", f"{ind}def fn2(x) -> {q}{names[f['ret']]}{q}:",
+                (f"{ind}    return dict(v='8', peer=dict(m=1))" if shape["classes"][f["ret"]].get("peer") else f"{ind}    return dict(v='8')"), ""]
     if variant.get("fn_first") and variant["style"] != "local":
         # the function is declared BEFORE the classes it names: parameters, *args and return type are late references
         at = next(k for k, l in enumerate(lines) if l.startswith("class ") or l.startswith(f"class {amt}"))
@@ -176,7 +179,7 @@ def source(shape, variant, uid):
         late = True
     else:
         lines += fn_lines
-    extra_names = ["fn", "gen"]
+    extra_names = ["fn", "fn2", "gen"]
     if shape.get("sub_of") is not None:
         b_ = names[shape["sub_of"]]
         lines += [f"{ind}class {b_}Sub({b_}):", f"{ind}    extra: int = 0", ""]
@@ -523,6 +526,10 @@ def run_case(case, ctx):
                 arg_data, arg_exp = {"v": "5"}, None
                 def arg_for(ci, v):
                     return dict({"v": v}, **({"peer": {"m": "2"}} if shape["classes"][ci].get("peer") else {}))
+                o3 = run(lambda: norm(dict(ns["fn2"](0))))
+                ctx.count("parses")
+                if not o3.ok or o3.value.get("v") != 8:
+                    problems = ("function-with-ignore_params", f["ret"], 0, {"v": 8}, o3, 1)
                 o2 = run(lambda: norm(dict(ns["fn"](arg_for(f["arg"], "5"), *([arg_for(f["star"], "6")] if f["star"] is not None else [])))))
                 ctx.count("parses")
                 exp_v = 7 if f["ret"] != f["arg"] else 5
